@@ -532,6 +532,94 @@ func genTwoRunChunk(seed int64, n int, tier string) []Script {
 	return out
 }
 
+// genTwoRunAdjacent: chunk-wise use of one array by two parser instances. The
+// compared parser is Reset with the second chunk (zero copy: the slice has
+// spare capacity), then a second instance is Reset with the chunk in front of
+// it - whose capacity reaches over the first parser's data. The first parser
+// must emit what a parser without such a neighbour emits.
+func genTwoRunAdjacent(seed int64, n int, tier string) []Script {
+	r := rand.New(rand.NewSource(seed))
+	var out []Script
+	for i := 0; i < n; i++ {
+		kind := parserKinds[i%len(parserKinds)]
+		cfg := genParserCfg(r, kind, 200)
+		cfg["mode"] = "reset"
+		B := int(num(cfg["BufferSize"]))
+		if B < 8 {
+			B = 8 + r.Intn(40)
+			cfg["BufferSize"], cfg["ShrinkSize"] = B, B/2
+		}
+		chunk0, _ := genInput(r, 1+r.Intn(B))
+		chunk1 := relatedInput(r, chunk0, 1+r.Intn(B))
+		// the head of chunk1 should be matchable later in chunk1
+		if len(chunk1) > 12 {
+			copy(chunk1[len(chunk1)-6:], chunk1[:6])
+		}
+		reset := map[string]any{"op": "reset", "data": B2(chunk1), "front": B2(chunk0), "cap": pickInt(r, 7, 8, 16, 40)}
+		var parse []map[string]any
+		for k := 0; k < 6; k++ {
+			parse = append(parse, map[string]any{"op": "parse", "flags": pickInt(r, 0, 0, 1)})
+		}
+		ops := []map[string]any{{"op": "run", "run": "R"}, reset, {"op": "sync"}}
+		ops = append(ops, parse...)
+		ops = append(ops, map[string]any{"op": "run", "run": "X"}, reset, map[string]any{"op": "neighbour"}, map[string]any{"op": "sync"})
+		ops = append(ops, parse...)
+		out = append(out, Script{Tid: "tworun-adjacent-" + itoa(seed) + "-" + itoa(int64(i)), Comp: "tworun",
+			Cfg: cfg, Ops: ops, Tags: []string{"go", kind, "reset", "adjacent"}})
+	}
+	return out
+}
+
+// genTwoRunWReset: WrappedParser.Reset must make the wrapper equivalent to a
+// new one. Reference run: a new wrapper over stream 2. Compared run: a wrapper
+// with a history over stream 1 - reader faults with and without data, the
+// last one possibly right before the pump is stopped, drained to io.EOF or
+// left in the middle - then Reset(reader of stream 2) and the same pump.
+func genTwoRunWReset(seed int64, n int, tier string) []Script {
+	r := rand.New(rand.NewSource(seed))
+	var out []Script
+	for i := 0; i < n; i++ {
+		kind := parserKinds[i%len(parserKinds)]
+		cfg := genParserCfg(r, kind, 200)
+		cfg["mode"] = "reset"
+		cfg["wrap"] = true
+		cfg["reuse"] = r.Intn(2) == 0
+		B := int(num(cfg["BufferSize"]))
+		Blk := int(num(cfg["BlockSize"]))
+		d1, _ := genInput(r, 1+genWrapInputLen(r, B, Blk, 300))
+		d2 := relatedInput(r, d1, 1+genWrapInputLen(r, B, Blk, 300))
+		c2, e2 := genReaderCalls(r, len(d2), false)
+		pump2 := map[string]any{"op": "wpump", "seed": r.Intn(1 << 30), "pntl": pickInt(r, 0, 0, 30), "pnil": 0}
+		// history: a few reads, then a fault (with or without data), then more
+		var c1 []any
+		pos := 0
+		for k := 0; k < r.Intn(4); k++ {
+			c := 1 + r.Intn(B+8)
+			c1 = append(c1, []any{c, ""})
+			pos += c
+		}
+		c1 = append(c1, []any{pickInt(r, 0, 1, 5, B), pickStr(r, "reader", "reader2")})
+		if r.Intn(2) == 0 {
+			c1 = append(c1, []any{1000, ""})
+		}
+		hist := map[string]any{"op": "wpump", "seed": r.Intn(1 << 30), "pntl": pickInt(r, 0, 50), "pnil": pickInt(r, 0, 0, 20)}
+		switch r.Intn(3) {
+		case 0:
+			hist["budget"] = 1 + r.Intn(4) // stopped early: possibly right at the fault
+		case 1:
+			hist["budget"] = 2 + len(c1)
+		}
+		ops := []map[string]any{
+			{"op": "run", "run": "R", "src": B2(d2), "rcalls": c2, "eofwith": e2}, {"op": "sync"}, pump2,
+			{"op": "run", "run": "X", "src": B2(d1), "rcalls": c1, "eofwith": r.Intn(2) == 0}, hist,
+			{"op": "wreset", "src": B2(d2), "rcalls": c2, "eofwith": e2}, {"op": "sync"}, pump2,
+		}
+		out = append(out, Script{Tid: "tworun-wreset-" + itoa(seed) + "-" + itoa(int64(i)), Comp: "tworun",
+			Cfg: cfg, Ops: ops, Tags: []string{"go", kind, "reset", "wrapreset"}})
+	}
+	return out
+}
+
 // genTwoRunConc: one reference run, then K identical runs executed
 // concurrently on distinct instances next to busy parsers and decoders.
 func genTwoRunConc(seed int64, n int, tier string) []Script {
@@ -591,6 +679,8 @@ func genTwoRunCfg(seed int64, n int, tier string) []Script {
 }
 
 func init() {
+	generators["tworun-wreset"] = genTwoRunWReset
+	generators["tworun-adjacent"] = genTwoRunAdjacent
 	generators["tworun-cfg"] = genTwoRunCfg
 	components["tworun"] = runTwoRun
 	generators["tworun-reset"] = genTwoRunReset
